@@ -314,6 +314,12 @@ inline std::vector<json> read_ndjson(const std::string& path)
 	return v;
 }
 
+// file descriptor on which crash attribution is reported (the real stderr even while Quiet redirects fd 2)
+inline int& errfd_ref()
+{
+	static int fd = 2;
+	return fd;
+}
 // silence the library's stdout chatter inside the current process (returns saved fd)
 struct Quiet
 {
@@ -327,9 +333,11 @@ struct Quiet
 		dup2(dn, 1);
 		dup2(dn, 2);
 		close(dn);
+		errfd_ref() = saved_err;
 	}
 	~Quiet()
 	{
+		errfd_ref() = 2;
 		std::fflush(nullptr);
 		std::cout.flush();
 		dup2(saved_out, 1);
@@ -359,7 +367,7 @@ inline void report_and_die(const char* how)
 {
 	std::fflush(nullptr);
 	std::string msg = std::string("\nVERIF-DIED how=") + how + " intent=" + intent_ref() + "\n";
-	(void)!write(2, msg.data(), msg.size());
+	(void)!write(errfd_ref(), msg.data(), msg.size());
 	_exit(77);
 }
 inline void on_signal(int sig)
